@@ -1,0 +1,11 @@
+//go:build verif
+
+package scheduler
+
+import "github.com/vechain/thor/v2/builtin/authority"
+
+// VerifView exposes, read-only, the candidate list held by c and the memoised result of Pick
+// (indices into the list; empty = not computed). Used by the verification harness (/verif, C01).
+func (c *Candidates) VerifView() ([]*authority.Candidate, []int) {
+	return c.list, c.satisfied
+}
